@@ -12,7 +12,10 @@ Undef(r) == ~Decided(r.fn, r.args)
 Diag(r) == r.fn = "Abbreviate" /\ r.k = "ok" /\ ~AbbrFitsUnchanged(r.args[1], r.args[2], r.v)
 \* root cause: which function, which clause; for the shared white-space table the byte that indexes outside it
 Detail(r, c) == IF c = "hostpanic" /\ r.fn = "MarshalJSONIndent" /\ (\E i \in 1..Len(r.args[2] \o r.args[3]) : (r.args[2] \o r.args[3])[i] = 255)
-                THEN "byte-255-in-prefix-or-indent" ELSE "-"
+                THEN "byte-255-in-prefix-or-indent"
+                ELSE IF r.fn = "Capitalize" /\ c \in {"hostpanic", "wrong-result"}
+                THEN (IF ~Valid(r.args[1]) THEN "invalid-utf8-input" ELSE IF ~IsAscii(r.args[1]) THEN "non-ascii-input" ELSE "-")
+                ELSE "-"
 Sig(r, c) == [fam |-> "builtins", fn |-> r.fn, cause |-> c, detail |-> Detail(r, c)]
 
 (* ---- record walk: the skeleton of spec/lib2/Trace_HTMLEscape.tla, keeping the first KeepPerSig records of EVERY
